@@ -1360,7 +1360,9 @@ output(std::ostream &out, int indent_level, CPPScope *scope, bool complete) cons
 
     if (is_template()) {
       CPPTemplateScope *tscope = get_template_scope();
+      out << "< ";
       tscope->_parameters.output(out, scope);
+      out << " >";
     }
 
   } else {
